@@ -204,6 +204,24 @@ def _stores_of_field(repo: Repo, field_name: str) -> list[tuple[FuncInfo, ast.AS
     return out
 
 
+def _ctor_none_fields(repo: Repo) -> set[str]:
+    """Fields of the matcher classes that the constructors set to the constant None."""
+    out: set[str] = set()
+    for ci in _matcher_classes(repo):
+        init = ci.methods.get("__init__")
+        if init is None:
+            continue
+        for n in own_nodes(init.node):
+            t, v = None, None
+            if isinstance(n, ast.Assign) and len(n.targets) == 1:
+                t, v = n.targets[0], n.value
+            elif isinstance(n, ast.AnnAssign):
+                t, v = n.target, n.value
+            if isinstance(t, ast.Attribute) and isinstance(t.value, ast.Name) and t.value.id == "self" and isinstance(v, ast.Constant) and v.value is None:
+                out.add(t.attr)
+    return out
+
+
 def run_r1(repo: Repo, res: Result) -> None:
     T = types_of(repo)
     entries, fresh, why_not_fresh = _entry_points(repo)
@@ -211,6 +229,7 @@ def run_r1(repo: Repo, res: Result) -> None:
         raise AnalysisError("no implementation of the matcher entry point found")
     accessors, sides = _requirement_sides(repo)
     classes = _matcher_classes(repo)
+    none_fields = _ctor_none_fields(repo) if fresh else set()
     nq = 0
     for entry in entries:
         view = inline_view(repo, entry, T, allow=_allow_r1, max_depth=4)
@@ -224,6 +243,43 @@ def run_r1(repo: Repo, res: Result) -> None:
         if not queries:
             raise AnalysisError(f"{entry.fq}: no graph query on `{ev}` found in the inlined view (rule would pass vacuously)")
         nq += len(queries)
+        # ---- provenance: which conversion (of which side) does a value derive from; `pre:` = state from before this evaluation
+        ids = {id(c): i for i, c in enumerate(convs)}
+
+        def source(call: ast.Call, argtags: list):
+            if id(call) not in ids:
+                return None
+            out = {f"conv:{ids[id(call)]}"}
+            for t in (argtags[0] if argtags else ()):
+                if t.startswith("acc:"):
+                    out |= {f"cside:{p}" for p in accessors.get(t[4:], ())}
+            return out
+
+        def attr_tags(a: ast.Attribute):
+            if a.attr in accessors and any(m[0] == "cls" and m[1].endswith(".ModuleRequirement") for m in _members(fn.type_of(a.value))):
+                return {f"acc:{a.attr}"}
+            return None
+
+        assumed: list[str] = []
+
+        def assume(st_if: ast.If, state: dict):
+            # a matcher that is created for every assert_applies call enters with its constructor state: `self.f is None` holds
+            # for a field the constructor sets to None as long as nothing was stored into it on the way
+            if not fresh:
+                return None
+            lits = flatten([(st_if.test, True)])
+            if len(lits) != 1:
+                return None
+            lit, pol = lits[0]
+            if isinstance(lit, ast.Compare) and len(lit.ops) == 1 and isinstance(lit.ops[0], ast.Is) and isinstance(lit.comparators[0], ast.Constant) and lit.comparators[0].value is None:
+                fk = field_key(lit.left) if isinstance(lit.left, ast.Attribute) and isinstance(lit.left.value, ast.Name) else None
+                if fk is not None and fk[5:] in none_fields and state.get(fk, {f"pre:{fk}"}) == {f"pre:{fk}"}:
+                    if norm(st_if.test) not in assumed:
+                        assumed.append(norm(st_if.test))
+                    return pol
+            return None
+
+        prov = Provenance(fn, source, lambda a: _scalar_type(fn.type_of(a)), attr_tags, assume)
         # ---- (1) the conversion runs on every evaluation, before any query, against the evaluable being queried
         problems: list[tuple[str, ast.AST, bool]] = []  # (text, node, depends on matcher state)
         if not convs:
@@ -237,73 +293,66 @@ def run_r1(repo: Repo, res: Result) -> None:
                 if not cfg.dominates(stmt_of(c), stmt_of(q)):
                     problems.append((f"the query `{norm(q, 50)}` can be reached without the conversion `{norm(c, 50)}`", q, True))
                     break
+        for c in convs:
             arg = c.args[1] if len(c.args) > 1 else next((k.value for k in c.keywords if k.arg not in (None, "modules")), None)
             if not (isinstance(arg, ast.Name) and arg.id == ev and all(d.kind == "param" for d in fn.reaching(ev, arg))):
-                problems.append((f"`{norm(c, 70)}` converts against `{norm(arg) if arg is not None else '?'}`, not against the evaluable `{ev}` being checked", c, True))
-        # ---- (5) the input of the conversion is the requirement as specified, not something an earlier evaluation left behind
+                problems.append((f"`{norm(c, 70)}` converts against `{norm(arg) if arg is not None else '?'}`, not against the evaluable `{ev}` being checked", c, False))
+        # the input of the conversion is the requirement as specified, not something an earlier evaluation left behind
         for c in convs:
             inp = c.args[0] if c.args else next((k.value for k in c.keywords), None)
-            x = fn.expand(inp) if inp is not None else None
-            for a in ast.walk(x) if x is not None else []:
-                fk = field_key(a) if isinstance(a, ast.Attribute) and isinstance(a.value, ast.Name) and a.value.id == "self" else None
-                if fk is None:
+            for t in sorted(prov.of(inp)) if inp is not None else []:
+                if not t.startswith("pre:self."):
                     continue
-                late = [(m, n) for m, n in _stores_of_field(repo, a.attr) if m.name != "__init__"]
+                late = [(m, n) for m, n in _stores_of_field(repo, t[9:]) if m.name != "__init__"]
                 if late:
                     m, n = late[0]
-                    problems.append((f"`{fk}`, from which the conversion reads the filters as specified by the user, is overwritten in {m.qualname} (`{header(stmt_of(n))[:70]}`): a later evaluation converts what an earlier one left behind", c, True))
+                    problems.append((f"`{t[4:]}`, from which the conversion reads the filters as specified by the user, is overwritten in {m.qualname} (`{header(stmt_of(n))[:70]}`): a later evaluation converts what an earlier one left behind", c, True))
         key = base + "conversion dominates evaluation"
-        hard = [p for p in problems if p[2]]
-        if not problems:
+        wrong_target = [p for p in problems if not p[2] and "converts against" in p[0]]
+        stateful = [p for p in problems if p[2]]
+        other = [p for p in problems if p not in wrong_target and p not in stateful]
+        if wrong_target:
+            res.add("C11.R1", key, False, f"{wrong_target[0][0]}: the regexes are resolved against another architecture than the one evaluated", where(view, wrong_target[0][1]), kind="dominance")
+        elif not problems:
             res.add("C11.R1", key, True, "regexes are converted to module names before any graph query, unconditionally, against the evaluable being checked", where(view, view.node), kind="dominance")
-        elif fresh and all("converts against" not in p[0] and "never converted" not in p[0] for p in problems):
-            res.add("C11.R1", key, True, f"the conversion depends on matcher state ({problems[0][0]}), but Rule.assert_applies creates a new matcher for every call, so no state survives between evaluations", where(view, problems[0][1]), kind="dominance")
-        elif hard:
-            extra = f" - and {why_not_fresh}, so the state survives between evaluations" if not fresh and why_not_fresh else ""
-            res.add("C11.R1", key, False, f"{hard[0][0]}{extra}: a stale or missing conversion is evaluated", where(view, hard[0][1]), kind="dominance")
+        elif fresh and convs:
+            res.add("C11.R1", key, True, f"the conversion depends on the matcher's state ({problems[0][0]}), but Rule.assert_applies creates a new matcher for every call, so every evaluation starts from the constructor state", where(view, problems[0][1]), kind="dominance")
+        elif stateful:
+            extra = f" - and {why_not_fresh}, so the state survives between evaluations" if why_not_fresh else ""
+            res.add("C11.R1", key, False, f"{stateful[0][0]}{extra}: a stale or missing conversion is evaluated", where(view, stateful[0][1]), kind="dominance")
         else:
-            res.undecide("C11.R1", key, problems[0][0], where(view, problems[0][1]))
+            res.undecide("C11.R1", key, other[0][0], where(view, other[0][1]))
         # ---- (2) both sides are converted
         conv_side: dict[int, set[str]] = {}
-        acc_text: dict[int, str] = {}
-        for i, c in enumerate(convs):
+        acc_text: dict[int, list[str]] = {}
+        for c in convs:
             inp = c.args[0] if c.args else next((k.value for k in c.keywords), None)
-            x = fn.expand(inp) if inp is not None else None
-            got: set[str] = set()
-            txt = norm(inp) if inp is not None else "?"
-            for a in ast.walk(x) if x is not None else []:
-                if isinstance(a, ast.Attribute) and a.attr in accessors and any(m[0] == "cls" and m[1].endswith(".ModuleRequirement") for m in _members(fn.type_of(a.value))):
-                    got |= accessors[a.attr]
-                    txt = a.attr
-            conv_side[i] = got
-            acc_text[i] = txt
+            accs = sorted(t[4:] for t in prov.of(inp) if t.startswith("acc:")) if inp is not None else []
+            acc_text[ids[id(c)]] = accs
+            conv_side[ids[id(c)]] = set().union(*[accessors.get(a, set()) for a in accs]) if accs else set()
         covered = set().union(*conv_side.values()) if conv_side else set()
-        distinct = len({acc_text[i] for i in conv_side}) >= min(2, len(sides))
+        all_accs = sorted({a for v in acc_text.values() for a in v})
+        distinct = len(all_accs) >= min(2, len(sides))
         ok = bool(convs) and set(sides) <= covered and distinct
         if convs and any(not v for v in conv_side.values()):
-            res.undecide("C11.R1", base + "both sides converted", f"the input `{[acc_text[i] for i, v in conv_side.items() if not v][0]}` of a conversion is not an accessor of the module requirement", where(view, convs[0]))
+            res.undecide("C11.R1", base + "both sides converted", f"the input `{norm(convs[[i for i, v in conv_side.items() if not v][0]].args[0], 60) if convs[0].args else '?'}` of a conversion is not recognised as an accessor of the module requirement", where(view, convs[0]))
         else:
-            res.add("C11.R1", base + "both sides converted", ok, "importers and importees are both converted against the evaluable being checked" if ok else f"the conversion covers {sorted(acc_text.values())} only: a side ({', '.join(sorted(set(sides) - covered)) or 'one of ' + ', '.join(sides)}) keeps its regex filters or is converted twice", where(view, convs[0] if convs else view.node), kind="structural")
+            res.add("C11.R1", base + "both sides converted", ok, "importers and importees are both converted against the evaluable being checked" if ok else f"the conversion covers {all_accs} only: a side ({', '.join(sorted(set(sides) - covered)) or 'one of ' + ', '.join(sides)}) keeps its regex filters or is converted twice", where(view, convs[0] if convs else view.node), kind="structural")
         # ---- (3) the queries receive converted filters only
-        ids = {id(c): f"conv:{i}" for i, c in enumerate(convs)}
-        prov = Provenance(fn, lambda call: {ids[id(call)]} if id(call) in ids else None, lambda a: _scalar_type(fn.type_of(a)))
         for q in queries:
             args = [*q.args, *[k.value for k in q.keywords]]
             bad = ""
-            reach: set[str] = set()
+            got: set[str] = set()
             for a in args:
                 t = prov.of(a)
                 pre = sorted(x for x in t if x.startswith("pre:"))
-                cv = {x for x in t if x.startswith("conv:")}
-                reach |= cv
+                got |= {x[6:] for x in t if x.startswith("cside:")}
                 if pre:
                     bad = bad or f"`{norm(a, 60)}` is read from `{pre[0][4:]}` as it was before this evaluation's conversion (the un-converted or a stale requirement)"
-                elif not cv:
+                elif not any(x.startswith("conv:") for x in t):
                     bad = bad or f"`{norm(a, 60)}` does not come from the conversion"
-            if not bad and convs:
-                got = set().union(*[conv_side[int(x.split(':')[1])] for x in reach]) if reach else set()
-                if not set(sides) <= got:
-                    bad = f"only the conversion of {sorted(got)} reaches the query"
+            if not bad and convs and not set(sides) <= got:
+                bad = f"only the conversion of {sorted(got)} reaches the query"
             res.add("C11.R1", repo.key(view, stmt_of(q)) + f" [{norm(q.func, 80)}]", not bad, "queries the graph with the converted requirement" if not bad else f"{bad}: regex filters reach a graph query", where(view, q), kind="flow")
         # ---- (4) consumers outside the view (detectors, message generators) read the converted requirement
         seen: set[tuple[str, str]] = set()
@@ -313,9 +362,8 @@ def run_r1(repo: Repo, res: Result) -> None:
             roots = [f for f in fn.callees(c)[0] if f.cls in classes]
             if not roots:
                 continue
-            reach_f = reachable_funcs(repo, roots, byname=False)
-            for m in reach_f:
-                if m.cls not in classes or isinstance(m.node, ast.Lambda) and m.outer is None:
+            for m in reachable_funcs(repo, roots, byname=False):
+                if m.cls not in classes:
                     continue
                 for node in own_nodes(m.node):
                     if not (isinstance(node, ast.Attribute) and isinstance(node.ctx, ast.Load) and isinstance(node.value, ast.Name) and node.value.id == "self"):
@@ -333,7 +381,10 @@ def run_r1(repo: Repo, res: Result) -> None:
                         continue
                     seen.add(k)
                     nq += 1
-                    res.add("C11.R1", repo.key(m, stmt_of(node)) + f" [{norm(up if isinstance(up, ast.Attribute) else node, 80)}]", okr, "reads the converted requirement" if okr else f"{m.qualname} reads `{norm(up if isinstance(up, ast.Attribute) else node)}`, which at the call `{norm(c, 50)}` is {'the un-converted (or a stale) requirement' if pre else 'not the result of the conversion'}: regex filters reach a detector / message generator", where(m, node), kind="flow")
+                    shown = up if isinstance(up, ast.Attribute) else node
+                    res.add("C11.R1", repo.key(m, stmt_of(node)) + f" [{norm(shown, 80)}]", okr, "reads the converted requirement" if okr else f"{m.qualname} reads `{norm(shown)}`, which at the call `{norm(c, 50)}` is {'the un-converted (or a stale) requirement' if pre else 'not the result of the conversion'}: regex filters reach a detector / message generator", where(m, node), kind="flow")
+        if assumed:
+            res.observe(f"C11.R1: evaluated under the constructor state of a freshly created matcher ({', '.join(assumed)})")
     res.floor("C11.R1", 4, nq)
 
 
